@@ -788,7 +788,7 @@ def script_rows_for_tlc(rows):
 
 def expectations(c, scripts, name):
     """one TLC run of spec/gen/KeyKeeperGen over all scripts -> per script the list of EXPECT records"""
-    path = os.path.join(util.BUILD, "traces", "%s_script.ndjson" % name)
+    path = os.path.join(util.TRACES, "%s_script.ndjson" % name)
     allrows = []
     for rows in scripts:
         allrows += script_rows_for_tlc(rows)
@@ -1151,7 +1151,7 @@ class Sweeper:
 
 def cleanup_traces(prefix):
     """trace/script files of this process are scratch once TLC has decided them (violating cases are saved as replays)"""
-    d = os.path.join(util.BUILD, "traces")
+    d = util.TRACES
     try:
         for n in os.listdir(d):
             if n.startswith(prefix) and ("_%d" % os.getpid()) in n:
